@@ -20,6 +20,7 @@ type Options struct {
 
 // Exec generates the verification condition of one function under contract.
 type Exec struct {
+	isoLoops  []isoLoop // isolate loops entered so far (function under verification only)
 	proving   bool // a clause is being evaluated as a proof obligation (see proving() in the specification language)
 	assertHit map[*CallAssert]bool
 	fwd       map[string]fwdEntry // store-to-load forwarding per heap version (see store)
@@ -273,6 +274,36 @@ func (ex *Exec) newFrameAt(fn *ssa.Function, parent *Frame, prefix string, callP
 	fr.order = topoOrder(fn)
 	ex.assignLoopOrds(fr)
 	return fr
+}
+
+// ---- "loop N isolate" ----
+
+type isoLoop struct {
+	li  *loopInfo
+	cut int
+}
+
+// activeCut: the line from which quantified hypotheses are kept for obligations generated in block b - the head of the
+// most recently entered isolate loop that contains b, or whose enclosing loop (if any) contains b (code downstream of a
+// finished loop keeps that loop's head invariants; once the enclosing loop is left, its own cut applies again).
+func (ex *Exec) activeCut(fr *Frame, b *ssa.BasicBlock) int {
+	cut := 0
+	for _, il := range ex.isoLoops {
+		ok := il.li.body[b.Index]
+		if !ok {
+			var parent *loopInfo
+			for _, p := range fr.loops {
+				if p != il.li && p.body[il.li.header.Index] && (parent == nil || len(p.body) < len(parent.body)) {
+					parent = p
+				}
+			}
+			ok = parent == nil || parent.body[b.Index]
+		}
+		if ok && il.cut > cut {
+			cut = il.cut
+		}
+	}
+	return cut
 }
 
 // ---- loop ordinals across helper functions without a contract ----
@@ -547,6 +578,9 @@ func (ex *Exec) runBlocks(fr *Frame, order []*ssa.BasicBlock, st0 *State, reach0
 		var st *State
 		var reach Term
 		li := fr.loops[b]
+		if fr.parent == nil && ex.dry == 0 && len(ex.isoLoops) > 0 {
+			ex.vc.curCut = ex.activeCut(fr, b)
+		}
 		if first {
 			first = false
 			st, reach = st0, reach0
@@ -632,6 +666,14 @@ func (ex *Exec) enterLoop(fr *Frame, li *loopInfo, states []*State, conds []Term
 		ex.proving = false
 		o := ex.vc.oblige("invariant-init", fr.name(fmt.Sprintf("%s.init", inv.Name())), reach, g, inv.Where)
 		o.Descr = inv.Text
+	}
+	if ls.Isolate && ex.dry == 0 {
+		// "loop N isolate": from here on obligations are discharged without the quantified hypotheses collected so far
+		// (dropping hypotheses is sound; the loop's own invariants have to restate what the rest of the function needs)
+		if fr.parent == nil {
+			ex.isoLoops = append(ex.isoLoops, isoLoop{li, len(ex.vc.lines)})
+			ex.vc.curCut = len(ex.vc.lines)
+		}
 	}
 	// 2. havoc what the body modifies
 	st := pre.clone()
